@@ -279,6 +279,14 @@ func c04Corpus(e *env) []*c04Unit {
 	add(mk("name-collision", "", "{let $x1: 'A' /}{let $a: 2 /}{let $b: 3 /}{let $c: 4 /}{let $d: 5 /}{let $e: 6 /}{let $f: 7 /}{let $g: 8 /}{let $h: 9 /}{let $i: 10 /}{let $x: 'B' /}{$a}{$b}{$c}{$d}{$e}{$f}{$g}{$h}{$i}{$x1}{$x}", data.Map{}))
 	add(mk("scoping-param-shadow", " * @param x\n", "{let $y: $x + 1 /}{let $x: $y + 1 /}{$x}{$y}", data.Map{"x": data.Int(1)}))
 	add(mk("switch", " * @param x\n", "{switch $x}{case 1, 2}a{case 3}b{default}c{/switch}", data.Map{"x": data.Int(2)}))
+	add(mk("switch-default-first", " * @param x\n", "{switch $x}{default}A{case 1}B{/switch}", data.Map{"x": data.Int(1)}))
+	add(mk("switch-default-first-nohit", " * @param x\n", "{switch $x}{default}A{case 1}B{/switch}", data.Map{"x": data.Int(2)}))
+	add(mk("switch-two-defaults", " * @param x\n", "{switch $x}{case 1}B{default}A{default}C{/switch}", data.Map{"x": data.Int(2)}))
+	add(mk("switch-dup-case", " * @param x\n", "{switch $x}{case 1}A{case 1}B{/switch}", data.Map{"x": data.Int(1)}))
+	add(mk("hidden-go-index", " * @param l\n * @param x__index\n * @param x__lastIndex\n", "{foreach $x in $l}{$x__index}{$x__lastIndex}{/foreach}", data.Map{"l": data.List{data.Int(7), data.Int(8)}, "x__index": data.String("p"), "x__lastIndex": data.String("r")}))
+	add(mk("hidden-js-index", " * @param l\n * @param __index\n", "{foreach $x in $l}{$__index}{/foreach}", data.Map{"l": data.List{data.Int(7), data.Int(8)}, "__index": data.String("q")}))
+	add(mk("hidden-js-var", " * @param l\n * @param __var\n", "{foreach $x in $l}{$__var}{/foreach}", data.Map{"l": data.List{data.Int(7), data.Int(8)}, "__var": data.String("v")}))
+	add(mk("hidden-js-limit", " * @param __limit\n", "{for $x in range(2)}{$__limit}{/for}", data.Map{"__limit": data.String("m")}))
 	add(mk("css", " * @param s\n", "{css foo}{css $s, bar}", data.Map{"s": data.String("base")}))
 	return out
 }
@@ -389,6 +397,7 @@ func runC04(e *env) {
 	units = append(units, c04Bundles(e, 800*e.scale)...)
 	c04Run(e, units)
 	c04ExprTie(e, 3000*e.scale)
+	c04StmtTie(e, 1500*e.scale)
 	c04EscapeTie(e)
 }
 
